@@ -126,4 +126,30 @@ CLAIMS['C10'] = {
             'yet), (iii) the assumed contract of asyncio.gather; await-erasure (single-task reasoning); the non-interference '
             'meta-theorem connecting these to every interleaving is a paper argument',
 }
+CLAIMS['C15'] = {
+    'text': 'MethodRegistry.add / _add_method / get / Method.__init__ under contract, with the map _registry as the abstract '
+            'view: registering stores the method under prefix+separator+name (name = explicit name or __name__), a second '
+            'registration of the same key raises and leaves the map unchanged, every other key keeps its entry (whole-view '
+            'postcondition), get returns exactly the stored entry or None; the decorator form returns the user function '
+            'itself.',
+    'note': 'merge(), add_methods(), view() / MethodView registration are not yet under contract; function identity is a '
+            'heap reference; __name__ of a callable is an uninterpreted string attribute',
+}
+CLAIMS['C18'] = {
+    'text': 'aiohttp / flask / werkzeug _rpc_handle and the werkzeug WSGI entry point are each proved against ONE spec '
+            '(spec/http.py): the request is dispatched iff its media type is one of the three documented types, then the '
+            'body text is read once, the dispatcher is called exactly once with that text, the reply carries exactly the '
+            'returned text, application/json and the status of the status-by-error function called once with the '
+            'dispatcher error codes (200 where none can be configured), an empty 200 when the dispatcher returns nothing; '
+            'any other media type raises the 415 exception with an unchanged ghost trace (nothing executed); the WSGI '
+            'entry never lets an HTTP exception escape and sends a 415 reply. Equivalence of the integrations is the '
+            'corollary of the shared spec.',
+    'note': 'assumed framework contracts (validated natively by probes/c18_integrations.py and replayers/c18.py): '
+            'mimetype / aiohttp content_type is the parameter-free lower-cased media type; raw header equals a documented '
+            'type only without parameters; flask is_json; HTTP exceptions raised from flask views / aiohttp handlers become '
+            'replies with their status; response constructors store status/body/content type; the dispatcher is an '
+            'abstract callable returning None or (text, codes) (its own contract is C01); endpoint routing and prefixes '
+            'are not under contract; violations are accompanied by a native witness search through the framework test '
+            'clients',
+}
 NOT_CLAIMED = {}
